@@ -11,7 +11,9 @@ import numpy as np
 
 from . import battery as bat
 from .models import Model, State, sorted_key
-from .observe import observe, lib_args, kind_of
+from collections import Counter
+
+from .observe import observe, lib_args, kind_of, key_from_lib
 
 # -------------------------------------------------------------------------------------
 # label universes (hostile: collisions, gaps, big/negative ints, strings with E/N/digits)
@@ -109,7 +111,8 @@ def rand_key(rng, cfg, S, prefer_existing=0.4, fresh_only=False):
             k = (e[1], e[0])
         return k
     if kind == "T":
-        t = rng.randint(0, cfg.tmax)
+        pool = getattr(cfg, "time_pool", None)
+        t = rng.choice(pool) if pool else rng.randint(0, cfg.tmax)
         if S.edges and rng.random() < 0.4:  # same node set at another time
             e = rng.choice(sorted(S.edges, key=lambda k: repr(sorted_key(k))))
             return (t, e[1])
@@ -249,6 +252,9 @@ def gen_op(rng, cfg, S):
     if name == "remove_edges":
         if not ekeys:
             return "add_node", {"n": rng.choice(cfg.labels), "md": None}
+        if rng.random() < 0.08 and len(ekeys) <= 12:
+            # what the library listed is handed straight back to it: "remove everything you have"
+            return name, {"keys": list(ekeys), "via_listing": True}
         ks = rng.sample(ekeys, rng.randint(1, min(3, len(ekeys))))
         if invalid:
             k = absent_key(rng, cfg, S)
@@ -439,6 +445,8 @@ def apply_op(h, kind, op, rng):
             return h.remove_edge((args[0], args[1]))
         return h.remove_edge(*args)
     if name == "remove_edges":
+        if a.get("via_listing"):
+            return h.remove_edges(h.get_edges())
         return h.remove_edges([lib_args(kind, k, rng)[0] for k in a["keys"]])
     if name == "remove_node":
         return h.remove_node(a["n"], keep_edges=a["keep"]) if a["keep"] or rng.random() < 0.5 else h.remove_node(a["n"])
@@ -610,12 +618,25 @@ def run_history(ctx, rng, cfg, ops=None, battery_every=1, after_event=None, tag=
             ks = [a["key"]] if name == "add_edge" else [it[0] for it in a["items"]]
             if any(k in S.edges for k in ks):
                 flags["reinsert"] = True
+        held = None
+        if len(S.edges) <= 40 and i % 3 == 0:
+            # listings asked BEFORE the call are kept by the caller: they must still describe the state they were asked in
+            try:
+                held = (h.get_edges(), h.get_nodes())
+            except Exception:
+                held = None
         raised = None
         try:
             apply_op(h, kind, op, rng)
         except Exception as e:  # the client boundary: any exception is a rejection
             raised = e
             ctx.exc(name, e)
+        if held is not None:
+            try:
+                ok_held = Counter(key_from_lib(kind, e) for e in held[0]) == Counter(S.edges.keys()) and Counter(held[1]) == Counter(S.nodes.keys())
+            except Exception:
+                ok_held = False
+            ctx.check(f"{tag}:listings-are-snapshots", ok_held, f"{tag}:listing-returned-earlier-changed-after:{name}", lambda: {"trace": trace[-6:], "held_edges": repr(held[0])[:300]}, abort=True)
         P = []
         try:
             S_after = observe(h, P)
